@@ -2,7 +2,6 @@
 import concurrent.futures
 import json
 import os
-import plistlib
 import shutil
 import time
 
@@ -17,8 +16,8 @@ META = {
             "number of tasks) every get returns the requested content, the interner ends as the duplicate-free union, "
             "every task completes once, the collected BTreeMap is independent of completion order, Ok iff all tasks "
             "Ok, and the loaded font / written tree equal the sequential ones (contents; Ok-or-Err). Saving is proved "
-            "for pairwise distinct glif paths; the full statement is refuted in the model for two contents entries "
-            "naming one file (known class dup-glif-paths). Tied to the code by the regenerated inventory of every "
+            "for pairwise distinct glif paths, which for a loaded layer follows from load_impl's file-name check "
+            "(modelled; proved) and for an API-built layer is the container invariant (hypothesis). Tied to the code by the regenerated inventory of every "
             "rayon/lock/RefCell/Arc/interner site (incl. the text of the three transliterated code regions) and by "
             "running a sequential and a rayon build on generated UFOs under RAYON_NUM_THREADS in {1,2,3,4,8,16} x "
             "repetitions, comparing full font dumps and saved-tree hashes, and both with the model's prediction.",
@@ -42,7 +41,6 @@ ASSUMPTIONS = [
     "contents keys are pairwise distinct (BTreeMap) - hypothesis NoDup (keys_of ts) of the load theorems",
 ]
 THREADS = [1, 2, 3, 4, 8, 16]
-KNOWN_DUP = "dup-glif-paths"
 
 
 def comparable(text):
@@ -51,31 +49,6 @@ def comparable(text):
 
 def split_tree(lines):
     return [l for l in lines if not l.startswith("TREE ")], [l for l in lines if l.startswith("TREE ")]
-
-
-def dup_paths_of(ufo):
-    """class predicate, computed from the input alone: layer-dir/file names that two keys of a
-    contents.plist share"""
-    dups = set()
-    layers = [("public.default", "glyphs")]
-    lc = os.path.join(ufo, "layercontents.plist")
-    try:
-        if os.path.exists(lc):
-            layers = plistlib.load(open(lc, "rb"))
-        for _, d in layers:
-            cp = os.path.join(ufo, d, "contents.plist")
-            if not os.path.exists(cp):
-                continue
-            seen = {}
-            for k, v in plistlib.load(open(cp, "rb")).items():
-                nv = os.path.normpath(v)
-                if nv in seen:
-                    dups.add(os.path.normpath("%s/%s" % (d, v)))
-                    dups.add(os.path.normpath("%s/%s" % (d, seen[nv])))
-                seen[nv] = v
-    except Exception:
-        pass
-    return dups
 
 
 def run_bins(ctx, sh, out, seq_bin, par_bin, reps, threads):
@@ -97,16 +70,12 @@ def run_bins(ctx, sh, out, seq_bin, par_bin, reps, threads):
 
 def compare(ctx, out, known_ids, threads, ufo_ids, store_replay=True):
     """compare every rayon result with the sequential one; returns statistics"""
-    st = {"ufo_runs": 0, "load_ok": 0, "load_err": 0, "save_err": 0, "dup_class_ufos": 0, "dup_class_differences": 0,
-          "rep_variation": 0, "sequential_build_not_repeatable": 0}
+    st = {"ufo_runs": 0, "load_ok": 0, "load_err": 0, "save_err": 0, "rep_variation": 0, "sequential_build_not_repeatable": 0}
     seqdir = os.path.join(out, "res", "seq")
     found = []
     for k in ufo_ids:
         ufo = os.path.join(out, "ufos", k)
         side = json.load(open(ufo + ".json")) if os.path.exists(ufo + ".json") else {}
-        dups = dup_paths_of(ufo)
-        if dups:
-            st["dup_class_ufos"] += 1
         sref = comparable(open(os.path.join(seqdir, k + ".txt")).read())
         if sref and sref[0] == "LOAD ok":
             st["load_ok"] += 1
@@ -114,6 +83,10 @@ def compare(ctx, out, known_ids, threads, ufo_ids, store_replay=True):
                 st["save_err"] += 1
         else:
             st["load_err"] += 1
+        if side.get("expect_load") and sref[:1] != ["LOAD " + side["expect_load"]]:
+            ctx.disagreements.append({"what": "regression input: load outcome differs from the recorded one (model: load_impl "
+                                              "refuses a contents.plist in which two names share a file)",
+                                      "ufo": k, "expected": "LOAD " + side["expect_load"], "implementation": sref[:1]})
         sbase, stree = split_tree(sref)
         # the sequential build itself must be repeatable to serve as the reference; if it is not, that
         # is C10's finding (determinism), not a difference between parallel and sequential: skip, count
@@ -145,13 +118,7 @@ def compare(ctx, out, known_ids, threads, ufo_ids, store_replay=True):
                 sd = {l.split(" ", 3)[3]: l.split(" ", 3)[1:3] for l in stree if l.count(" ") >= 3}
                 gd = {l.split(" ", 3)[3]: l.split(" ", 3)[1:3] for l in gtree if l.count(" ") >= 3}
                 diff = sorted(p for p in set(sd) | set(gd) if sd.get(p) != gd.get(p))
-                outside = [p for p in diff if os.path.normpath(p) not in dups]
-                if not outside and dups:
-                    st["dup_class_differences"] += 1
-                    if KNOWN_DUP in known_ids:
-                        ctx.known_hits[KNOWN_DUP] = ctx.known_hits.get(KNOWN_DUP, 0) + 1
-                        continue
-                what = {"part": "saved tree", "files_differing": diff[:20], "class_dup_glif_paths": sorted(dups)[:20],
+                what = {"part": "saved tree", "files_differing": diff[:20],
                         "sequential": {p: sd.get(p) for p in diff[:5]}, "parallel": {p: gd.get(p) for p in diff[:5]}}
             v = {"ufo": k, "build": tag, "result_file": f, "generator": side.get("params"), "generator_seed": side.get("seed"),
                  "demand": "dump of Font::load and tree of Font::save identical to the sequential build's", **what}
@@ -298,8 +265,8 @@ def run(ctx, known, built):
         "rule": "one evaluation = one Font::load + dump + Font::save + tree hash of one generated UFO by the rayon build "
                 "under one RAYON_NUM_THREADS value (compared with the sequential build), plus one model evaluation per "
                 "UFO small enough for Coq. Distinct non-trivial = distinct generated UFOs (each has >= 1 layer whose "
-                "glyph loading/saving goes through the parallel iterator; %d load Ok, %d load Err, %d save Err, %d in "
-                "class dup-glif-paths)." % (st["load_ok"], st["load_err"], st["save_err"], st["dup_class_ufos"]),
+                "glyph loading/saving goes through the parallel iterator; %d load Ok, %d load Err (broken glifs, "
+                "non-plain or shared glif file names), %d save Err)." % (st["load_ok"], st["load_err"], st["save_err"]),
         "exhaustive": False,
         "input_distribution": {"ufos": len(ufo_ids), "corpus_ufos": ncorpus, "threads": THREADS, "repetitions": reps,
                                "glyphs_total": sum(g["glyphs"] for g in gen),
@@ -332,7 +299,7 @@ def replay(ctx, path):
     known_ids = {k["id"] for k in driver.parse_known("C19")}
     st = compare(ctx, out, known_ids, THREADS, ufo_ids, store_replay=False)
     print("UFO:", src, "generator:", inp.get("generator"), "seed:", inp.get("generator_seed"))
-    print("runs compared:", st["ufo_runs"], "known-class differences:", st["dup_class_differences"])
+    print("runs compared:", st["ufo_runs"])
     for v in ctx.violations[:10]:
         print("DIFFERENT:", json.dumps(v)[:1500])
     if not ctx.violations:
